@@ -316,3 +316,32 @@ func SpinWait() int {
 	wg.Wait()
 	return n
 }
+
+// MethodValues: lock operations taken as method values, and the RLocker of an RWMutex.
+type Box struct {
+	mu sync.Mutex
+	rw sync.RWMutex
+	n  int
+}
+
+func (b *Box) locked() func() {
+	b.mu.Lock()
+	return b.mu.Unlock
+}
+
+func (b *Box) Add(k int) {
+	defer b.locked()()
+	b.n += k
+	rl := b.rw.RLocker()
+	rl.Lock()
+	_ = b.n
+	rl.Unlock()
+	w := b.rw.Lock
+	w()
+	b.rw.Unlock()
+}
+
+func (b *Box) N() int {
+	defer b.locked()()
+	return b.n
+}
